@@ -7,7 +7,7 @@ EXPLANATION = ('The real BaseNumberParser.__get_int_value (English maps and reso
 ASSUMPTIONS = ['token shapes: per three-digit group u | teen | tens | tens ones | u hundred [and] (u | teen | tens | tens ones); groups units..trillion',
                'quick: every one-group shape and the two-group shapes of (thousand|million|trillion, units) and (million, thousand) with 5 patterns for the higher group; thorough: all two-group and selected three-group shapes', 'ordinals: the last word in its ordinal form (first..ninth, tenth..nineteenth, twentieth.., hundredth, thousandth, ...)',
                'Decimal(tmp_val) at the end is the exact proxy of harness/symdec.py']
-OUTSIDE = ['the extraction regexes (which spellings are extracted as one entity) and BaseMergedNumberExtractor', 'cultures other than English', 'zero, "a hundred", dozens, fractions, decimals ("point five")',
+OUTSIDE = ['the extraction regexes (which spellings are extracted as one entity) and BaseMergedNumberExtractor', 'ordinals of the cultures other than English; Chinese / Japanese (CJK parser)', 'spellings of the recorded findings F26-F29', 'zero, "a hundred", dozens, fractions, decimals ("point five")',
            'CJKNumberParser']
 N = 'recognizers_number.number.parsers:'
 
@@ -48,4 +48,51 @@ def obligations(tier):
            Ob('O4.3-tokenisation', 'fn', 'harness.C04:validate_shapes', slices=sl, timeout=t,
               descr='validation (not a verdict): the real text_number_regex tokenises a concrete standard spelling of every shape into exactly the assumed tokens, and the real pipeline returns the number',
               encodes=[N + 'BaseNumberParser._text_number_parse'])]
+    es = _es_shapes(tier == 'quick')
+    EB = 60
+    esl = [{'shapes': es[i:i + EB]} for i in range(0, len(es), EB)]
+    obs.append(Ob('O4.1-int-value-es', 'sx', 'harness.C04es:h_int_value', twin='harness.C04es:t_int_value', slices=esl, timeout=t,
+                  descr='Spanish cardinals: __get_int_value with the Spanish configuration on token shapes (1..29 single words, tens [y unit], cien / hundreds word + rest, '
+                        '[n] mil, un millón / n millones incl. thousands of millions, un billón / n billones) -> the integer, for every value of the number words',
+                  bounds='%d shapes below 10^15; words 1..29, tens 30..90, units 1..9, hundreds 100..900 symbolic' % len(es),
+                  encodes=[N + 'BaseNumberParser.__get_int_value', 'recognizers_number.number.spanish.parsers:SpanishNumberParserConfiguration.resolve_composite_number'],
+                  stubs=['number words -> placeholder keys with symbolic values added to a copy of the real Spanish cardinal map', 'Decimal -> exact proxy']))
+    obs.append(Ob('O4.3-tokenisation-es', 'fn', 'harness.C04es:validate_shapes', slices=esl, timeout=t,
+                  descr='validation (not a verdict): a concrete standard Spanish spelling of every shape is tokenised into the assumed tokens, the kernel returns the number and '
+                        'recognize_number returns it as one entity (except the shapes of known finding F26)',
+                  encodes=[N + 'BaseNumberParser._text_number_parse']))
+    f26 = [x for x in es if any(lv in ('M', 'B') and pt.startswith('K:1+') for lv, pt in x)]
+    obs.append(Ob('O4.3-mil-millones', 'fn', 'harness.C04es:validate_shapes', slices=[{'shapes': f26, 'kf26': 1}], timeout=t, finding='F26',
+                  descr='region F26: a millions group headed by a bare "mil" ("mil millones", "mil once millones") is not extracted as one entity'))
+    for lang in ('french', 'german', 'dutch', 'italian', 'portuguese', 'spanish'):
+        obs.append(Ob('O4.1-int-value-%s' % lang[:2], 'sx', 'harness.C04x:h_int_value', twin='harness.C04x:t_int_value', slices=[{'lang': lang, 'part': i, 'nparts': 4} for i in range(4)], timeout=max(t, 600),
+                      descr='%s cardinals: __get_int_value with the real %s configuration on every token shape that the standard spellings of the sample numbers produce '
+                            '(spelled by an independent speller, tokenised by the real text_number_regex, number words abstracted to their kind): the kernel returns what an '
+                            'independent positional evaluator gives, for every value of the number words' % (lang.capitalize(), lang.capitalize()),
+                      bounds='shapes of ~550 boundary and sample numbers below the speller limit (10^9; pt 10^6; es 10^12); units 1..9, words 10..19 (es ..29), tens 20..90, hundreds words 100..900 symbolic',
+                      encodes=[N + 'BaseNumberParser.__get_int_value'],
+                      stubs=['number words -> placeholder keys with symbolic values added to a copy of the real cardinal map', 'Decimal -> exact proxy']))
+        obs.append(Ob('O4.3-api-%s' % lang[:2], 'fn', 'harness.C04x:validate', slices=[{'lang': lang}], timeout=max(t, 600),
+                      descr='composition check (not a verdict): every sample number, spelled independently, comes back from recognize_number as one entity with its value; its shape is in the verified set',
+                      encodes=[N + 'BaseNumberParser._text_number_parse']))
+    for lang, fid, what in (('french', 'F27', 'plural "cents" and "un million ..."'), ('italian', 'F28', 'accented "-tré"'), ('portuguese', 'F29', '"catorze"'), ('spanish', 'F26', '"mil ... millones"')):
+        obs.append(Ob('O4.3-known-%s' % lang[:2], 'fn', 'harness.C04x:validate', slices=[{'lang': lang, 'kf': 1}], timeout=max(t, 600), finding=fid,
+                      descr='region %s: %s' % (fid, what)))
     return obs
+
+
+def _es_shapes(quick):
+    below = ['w', 'd', 'dyu', 'C', 'c', 'cw', 'cd', 'cdyu']
+    few = ['w', 'dyu', 'C', 'cdyu']
+    b = few if quick else below
+    out = [[['u', p]] for p in below]
+    out += [[['K', p]] for p in ['1'] + below]
+    out += [[['K', pk], ['u', pu]] for pk in ['1'] + b for pu in b]
+    ms = ['1'] + b + ['K:1+', 'K:w+', 'K:cdyu+cw', 'K:1+dyu', 'K:d+C']
+    out += [[['M', pm]] for pm in ms]
+    out += [[['M', pm], ['u', pu]] for pm in ['1', 'w', 'cdyu', 'K:w+cd'] for pu in few]
+    out += [[['M', pm], ['K', pk]] for pm in ['1', 'dyu', 'K:1+w'] for pk in ['1'] + few]
+    out += [[['M', pm], ['K', pk], ['u', pu]] for pm in ['1', 'cw'] for pk in ['1', 'cdyu'] for pu in ['w', 'cdyu']]
+    out += [[['B', pb]] for pb in ['1'] + few]
+    out += [[['B', pb], ['M', pm], ['K', pk], ['u', pu]] for pb in ['1', 'w'] for pm in ['dyu', 'K:w+C'] for pk in ['1', 'cw'] for pu in ['w', 'dyu']]
+    return out
